@@ -1740,6 +1740,11 @@ func (s *BgpServer) handleFSMMessage(peer *peer, e *fsmMsg) {
 				peer.fsm.lock.Unlock()
 
 				gracefulFamilies, dropFamilies = peer.forwardingPreservedFamilies()
+				// RFC 4724 4.2: "To deal with possible consecutive restarts,
+				// a route (from the peer) previously marked as stale MUST be
+				// deleted": what is still stale from the previous restart
+				// goes now, what was re-announced since is retained as stale.
+				s.propagateUpdate(peer, peer.adjRibIn.DropStale(gracefulFamilies))
 				s.propagateUpdate(peer, peer.StaleAll(gracefulFamilies))
 			} else {
 				dropFamilies = peer.configuredRFlist()
